@@ -74,7 +74,8 @@ spec("deny",
      os=["linux"], services=["ssh", "ftp"], processes=["tomcat"],
      hosts={(1, 1): H("linux", ["ftp"], []),          # hosts deliberately not listed in address order
             (2, 0): H("linux", ["ssh", "ftp"], ["tomcat"],
-                      deny={(1, 0): ["ssh", "ftp"], (1, 1): ["ftp"]}),
+                      # ... and refuses ftp from ITSELF: once it is held through ssh, ftp still cannot be delivered
+                      deny={(1, 0): ["ssh", "ftp"], (1, 1): ["ftp"], (2, 0): ["ftp"]}),
             (1, 0): H("linux", ["ssh"], ["tomcat"])},
      exploits={"e_ssh": E("ssh", "linux", 0.7, 1, U), "e_ftp": E("ftp", None, 1.0, 1, U)},
      privescs={"pe_tomcat": P("tomcat", None, 0.5, 2, R)},
